@@ -19,6 +19,33 @@ async def job(*args, **kwargs):
     return await sim.worker_body("job", args, kwargs)
 
 
+async def mutator(*args, **kwargs):
+    """Records what it received, then empties every list/dict argument (a worker may do that)."""
+    sim = SIM
+    if sim is None:
+        return None
+    try:
+        return await sim.worker_body("mutator", args, kwargs)
+    finally:
+        for a in list(args) + list(kwargs.values()):
+            if isinstance(a, list):
+                a.clear()
+            elif isinstance(a, dict):
+                a.clear()
+
+
+async def stopper(*args, **kwargs):
+    """Calls pool.stop(1) in its first step (re-entrant call from a worker), then behaves like work()."""
+    sim = SIM
+    if sim is None:
+        return None
+    try:
+        sim.pool.stop(1)
+    except Exception:
+        pass
+    return await sim.worker_body("stopper", args, kwargs)
+
+
 def on_end(task_id):
     if SIM is not None:
         SIM.cb_record("end", task_id)
